@@ -300,7 +300,46 @@ def b_regex_scanner(root: Path) -> None:
     p.write_text(s.replace(bad, 're.compile(r"[0-9.]+")'))
 
 
+def b_comprehension_queries(root: Path) -> None:
+    """get_children as a comprehension, is_leaf through it, factor()'s trial range through math.isqrt."""
+    p = root / "mathy_core/tree.py"
+    s = p.read_text()
+    old = s[s.index("        result: List[Any] = []\n        if self.left:\n            result.append(self.left)"):s.index("        return result\n", s.index("        result: List[Any] = []\n        if self.left:")) + len("        return result\n")]
+    s = s.replace(old, "        return [child for child in (self.left, self.right) if child is not None]\n")
+    p.write_text(s)
+    p = root / "mathy_core/util.py"
+    s = p.read_text()
+    old = "    sqrt = int(sqrt + 1)\n"
+    assert old in s
+    s = s.replace(old, "    sqrt = math.isqrt(int(value)) + 2 if value == int(value) else int(sqrt + 1)\n")
+    p.write_text(s)
+
+
+def b_generic_clone(root: Path) -> None:
+    """A (correct) generic clone: the base class copies every instance attribute except the links, lists are copied; the
+    payload overrides of the subclasses are removed."""
+    p = root / "mathy_core/tree.py"
+    s = p.read_text()
+    old = "        result = self.__class__()  # type:ignore\n        result.id = self.id\n"
+    assert old in s
+    s = s.replace(old, "        result = self.__class__()  # type:ignore\n"
+                       "        for name, value in vars(self).items():\n"
+                       "            if name in (\"left\", \"right\", \"parent\", \"child\", \"cloned_node\", \"cloned_target\"):\n"
+                       "                continue\n"
+                       "            setattr(result, name, list(value) if isinstance(value, list) else value)\n")
+    p.write_text(s)
+    p = root / "mathy_core/expressions.py"
+    tree = ast.parse(p.read_text())
+    for n in ast.walk(tree):
+        if isinstance(n, ast.ClassDef) and n.name in ("ConstantExpression", "VariableExpression", "UnaryExpression"):
+            n.body = [m for m in n.body if not (isinstance(m, ast.FunctionDef) and m.name == "clone")]
+    ast.fix_missing_locations(tree)
+    p.write_text(ast.unparse(tree) + "\n")
+
+
 BENIGN: Dict[str, Tuple[Callable[[Path], None], List[str]]] = {
+    "comprehension-queries": (b_comprehension_queries, ["C14", "C16", "C01", "C07", "C13"]),
+    "generic-clone": (b_generic_clone, ["C13", "C07", "C06", "C09"]),
     "regex-scanner": (b_regex_scanner, ["C11", "C12", "C10"]),
     "operator-table": (b_operator_table, ["C11", "C12"]),
     "priority-table": (b_priority_table, ["C04", "C09"]),
